@@ -791,6 +791,14 @@ func (v *Protocol) WriteMessage(m *Message) (err error) {
 		return oe.Wrapf(err, "flush writer")
 	}
 
+	// The peer switches to the announced chunk size after this message,
+	// so the following messages must be chunked with it.
+	if m.MessageType == MessageTypeSetChunkSize && len(m.Payload) >= 4 {
+		if size := binary.BigEndian.Uint32(m.Payload); size > 0 {
+			v.output.opt.chunkSize = size
+		}
+	}
+
 	return
 }
 
